@@ -983,6 +983,193 @@ example : NoReopen [.get 1 sA, .setState (.conn 0) true false, .peerClose (.conn
   simp at he
   rcases he with rfl | rfl | rfl <;> simp_all
 
+/-! ### deepening round 5: the remaining hypotheses derived from the model, whole-history forms from `Init` -/
+
+private theorem inv_run (p : Pool) (seen evs : List Ev) (h : Inv p seen) (ha : AllAdm p evs) :
+    Inv (run p evs) (seen ++ evs) := by
+  induction evs generalizing p seen with
+  | nil => simpa [run] using h
+  | cons e es ih =>
+    have := ih (step p e).1 (seen ++ [e]) (step_spec p seen e h ha.1).1 ha.2
+    simpa [run, List.append_assoc] using this
+
+private theorem allAdm_append (p : Pool) (a b : List Ev) (h : AllAdm p (a ++ b)) :
+    AllAdm p a ∧ AllAdm (run p a) b := by
+  induction a generalizing p with
+  | nil => exact ⟨trivial, by simpa [run] using h⟩
+  | cons e es ih =>
+    obtain ⟨h1, h2⟩ := h
+    obtain ⟨i1, i2⟩ := ih (step p e).1 h2
+    exact ⟨⟨h1, i1⟩, by simpa [run] using i2⟩
+
+/-- every connection whose attempt is pending is closed -/
+def PendingClosed (p : Pool) : Prop := ∀ c ∈ p.conns, c.waiting.isSome = true → c.connected = false
+
+private theorem pc_updTarget (p : Pool) (t : Target) (f : Conn → Conn) (h : PendingClosed p)
+    (hf : ∀ c, (c.waiting.isSome = true → c.connected = false) → (f c).waiting.isSome = true → (f c).connected = false) :
+    PendingClosed (p.updTarget t f) := by
+  have upd : ∀ j, PendingClosed { p with conns := updAt p.conns j f } := by
+    intro j c hc hw
+    rcases mem_updAt hc with hc | ⟨c1, hc1, rfl⟩
+    · exact h c hc hw
+    · exact hf c1 (h c1 (mem_of_getElem? hc1)) hw
+  cases t with
+  | conn j => exact upd j
+  | ctx =>
+    simp only [Pool.updTarget]
+    cases hci : p.ctxIn with
+    | some j => have := upd j; rw [hci] at this; exact this
+    | none => exact h
+
+private theorem pc_getFresh (p : Pool) (rid : Nat) (s : Spec) (h : PendingClosed p) : PendingClosed (getFresh p rid s).1 := by
+  unfold getFresh
+  simp only
+  split
+  · exact h
+  · split
+    · intro c hc hw
+      rcases List.mem_append.mp hc with hc | hc
+      · exact h c hc hw
+      · simp at hc; subst hc; simp at hw
+    · intro c hc hw
+      rcases List.mem_append.mp hc with hc | hc
+      · rcases List.mem_append.mp hc with hc | hc
+        · exact h c hc hw
+        · simp at hc; subst hc; simp [newConn, Conn.connected]
+      · cases hv : s.via <;> simp [hv] at hc
+        subst hc; simp [tunnelConn] at hw
+
+private theorem pc_regetAll (p : Pool) (ws : List (Nat × Spec)) (h : PendingClosed p) : PendingClosed (regetAll p ws).1 := by
+  induction ws generalizing p with
+  | nil => simpa [regetAll] using h
+  | cons w ws ih =>
+    simp only [regetAll]
+    apply ih
+    simp only [getConn, Bool.false_eq_true, if_false]
+    exact pc_getFresh p w.1 w.2 h
+
+private theorem pc_step (p : Pool) (e : Ev) (h : PendingClosed p)
+    (hno : ∀ t r w, e = Ev.setState t r w → (r && w) = false) : PendingClosed (step p e).1 := by
+  cases e with
+  | get rid s =>
+    simp only [step, getConn, if_true]
+    cases hs : scan p.clientH2 s 0 p.conns with
+    | none => exact pc_getFresh p rid s h
+    | fail j => exact h
+    | reuse j => exact h
+    | wait j =>
+      intro c hc hw
+      rcases mem_updAt hc with hc | ⟨c1, hc1, rfl⟩
+      · exact h c hc hw
+      · obtain ⟨_, c0, hc0, _, hw0⟩ := scan_wait _ _ _ _ _ hs
+        simp only [Nat.sub_zero] at hc0
+        rw [hc0] at hc1; injection hc1 with hc1; subst hc1
+        simpa [addWaiting, Conn.connected] using h c0 (mem_of_getElem? hc0) hw0
+  | result cid res =>
+    simp only [step, register]
+    cases hc : p.conns[cid]? with
+    | none => exact h
+    | some c0 =>
+      simp only
+      cases hw : c0.waiting with
+      | none => exact h
+      | some ws =>
+        simp only
+        have hset : ∀ c1 : Conn, c1.waiting = none → PendingClosed { p with conns := p.conns.set cid c1 } := by
+          intro c1 h1 c hcm hwm
+          rcases List.mem_or_eq_of_mem_set hcm with hcm | hcm
+          · exact h c hcm hwm
+          · subst hcm; rw [h1] at hwm; simp at hwm
+        cases res with
+        | fail e => exact hset _ rfl
+        | ok h2 =>
+          simp only
+          split
+          · cases ws with
+            | nil => exact hset _ rfl
+            | cons w rest => exact pc_regetAll _ rest (hset _ rfl)
+          · exact hset _ rfl
+  | setState t r w =>
+    simp only [step]
+    exact pc_updTarget p t _ h (fun c _ _ => by simpa [Conn.connected] using hno t r w rfl)
+  | peerClose t =>
+    simp only [step]
+    refine pc_updTarget p t _ h (fun c hc hw => ?_)
+    by_cases hr : c.canRead = true
+    · simp [hr, Conn.connected]
+    · simp only [hr] at hw ⊢
+      exact hc hw
+  | responseDone t closeHdr =>
+    simp only [step]
+    refine pc_updTarget p t _ h (fun c hc hw => ?_)
+    by_cases hr : (closeHdr || p.clientH2) = true
+    · simp [hr, Conn.connected]
+    · simp only [hr] at hw ⊢
+      exact hc hw
+  | setError t =>
+    simp only [step]
+    cases p.target t with
+    | none => exact h
+    | some c0 =>
+      simp only
+      split
+      · exact h
+      · exact pc_updTarget p t _ h (fun c hc hw => hc hw)
+  | poke t f =>
+    simp only [step]
+    cases p.target t with
+    | none => exact h
+    | some c0 =>
+      simp only
+      refine pc_updTarget p t _ h (fun c hc hw => ?_)
+      rw [setAttr_connected]
+      rw [(setAttr_keeps c f).1] at hw
+      exact hc hw
+
+/-- **pending_not_connected.** In every history from an empty pool whose raw state changes never re-open a socket, a
+    connection whose attempt is still pending is closed (it becomes OPEN only through its own connection result). This
+    discharges the hypothesis of `failed_attempt_never_routed`. -/
+theorem pending_not_connected (p : Pool) (evs : List Ev) (hi : Init p) (hno : NoReopen evs) : PendingClosed (run p evs) := by
+  have base : PendingClosed p := by intro c hc; rw [hi.1] at hc; cases hc
+  clear hi
+  induction evs generalizing p with
+  | nil => simpa [run] using base
+  | cons e es ih =>
+    simp only [run]
+    exact ih (step p e).1 (fun e' he' => hno e' (by simp [he']))
+      (pc_step p e base (fun t r w he => hno e (by simp) t r w he))
+
+/-- **failed_attempt_never_routed_reachable.** From an empty pool, for every admissible history `pre` (no socket re-opened)
+    after which the attempt of connection `cid` is pending: once that attempt fails — with or without an error recorded —
+    no request of any continuation `post` is ever handed `cid`.  No hypothesis about the pool is left. -/
+theorem failed_attempt_never_routed_reachable (p : Pool) (pre post : List Ev) (hi : Init p) (cid : Nat) (c : Conn)
+    (ws : List (Nat × Spec)) (setsErr : Bool)
+    (ha : AllAdm p (pre ++ Ev.result cid (.fail setsErr) :: post))
+    (hno : NoReopen (pre ++ Ev.result cid (.fail setsErr) :: post))
+    (h : (run p pre).conns[cid]? = some c) (hw : c.waiting = some ws) :
+    ∀ x ∈ trace (step (run p pre) (.result cid (.fail setsErr))).1 post, ∀ (rid : Nat) (s : Spec), Out.routed rid s cid ∉ x.2 := by
+  obtain ⟨ha1, ha2⟩ := allAdm_append p pre _ ha
+  have hinv := inv_run p [] pre (inv_init p hi) ha1
+  have hpc := pending_not_connected p pre hi (fun e he => hno e (List.mem_append.mpr (Or.inl he)))
+  have hclosed : c.connected = false := hpc c (mem_of_getElem? h) (by simp [hw])
+  exact failed_attempt_never_routed (run p pre) _ post hinv cid c ws setsErr h hw hclosed ha2
+    (fun e he => hno e (List.mem_append.mpr (Or.inr (by simp [he]))))
+
+/-- **errored_never_routed_reachable**: whole-history form from `Init` — once an entry carries an error after `pre`, no
+    request of `post` gets it. -/
+theorem errored_never_routed_reachable (p : Pool) (pre post : List Ev) (hi : Init p) (ha : AllAdm p (pre ++ post))
+    (i : Nat) (c : Conn) (h : (run p pre).conns[i]? = some c) (herr : c.error = true) :
+    ∀ x ∈ trace (run p pre) post, ∀ (rid : Nat) (s : Spec), Out.routed rid s i ∉ x.2 := by
+  obtain ⟨ha1, ha2⟩ := allAdm_append p pre post ha
+  exact errored_never_routed (run p pre) _ post (inv_run p [] pre (inv_init p hi) ha1) ha2 i c h herr
+
+/-- **dead_entry_never_routed_reachable**: whole-history form from `Init`. -/
+theorem dead_entry_never_routed_reachable (p : Pool) (pre post : List Ev) (hi : Init p) (ha : AllAdm p (pre ++ post))
+    (hno : NoReopen post) (i : Nat) (c : Conn) (h : (run p pre).conns[i]? = some c) (hd : Dead c) :
+    ∀ x ∈ trace (run p pre) post, ∀ (rid : Nat) (s : Spec), Out.routed rid s i ∉ x.2 := by
+  obtain ⟨ha1, ha2⟩ := allAdm_append p pre post ha
+  exact dead_entry_never_routed (run p pre) _ post (inv_run p [] pre (inv_init p hi) ha1) ha2 hno i c h hd
+
 end MitmVerif.Props.C08
 
 
